@@ -62,7 +62,7 @@ def _value(v, tracers):
     if k == "f":
         what, fid, x = v[1], int(v[2]), float(Fr(v[3]))
         f = tracers[fid]
-        if what == "energy":
+        if what in ("energy", "value"):
             return f(x)
         if what == "force":
             return -f.deriv(x)
@@ -215,3 +215,204 @@ def validate_logic(run, which, n=200):
                     run.tie_broken("translator", "generated _check_tuple vs the real one", "species %s exclude=%s tuple %s: real %s generated %s" % (S, ex, t, real, a))
         return len(cases)
     raise InfraError("unknown logic validation %s" % which)
+
+
+class _Zero(object):
+    """function id 0: the zero function (the models' convention for `zero()` / `nullfunc` / `ZeroPair`)"""
+    fid = 0
+
+    def __call__(self, r):
+        return 0.0
+
+    def deriv(self, r):
+        return 0.0
+
+
+FAKE_LABELS = ["Al", "Cu", "Zz", "B", "Ag", "a", "Na"]
+
+
+def validate_eam_writer(run, which, n=10):
+    """which in tabeam | tabeam_fs | setfl | setfl_fs: the regenerated whole-file writers against writeTABEAM / writeTABEAMFinnisSinclair / _writeSetFL on
+    tracer functions and dyadic grids (text compared byte for byte; for setfl without its five header lines, whose writer is an operation of the translated function)"""
+    from atsim.potentials import Potential, EAMPotential
+    ok, log = build_gen()
+    if not ok:
+        run.tie_broken("translator", "Gen/Logic.lean (%s writer)" % which, "the regenerated definitions (or their driver) do not build: " + log[-600:])
+        return 0
+    rng = run.rng
+    fs = which.endswith("_fs")
+    cases, reqs = [], []
+    for _ in range(n):
+        nel = rng.randint(1, 3)
+        labels = rng.sample(FAKE_LABELS, nel)
+        fid = [0]
+
+        def nf(zero_ok=True):
+            if zero_ok and rng.random() < 0.15:
+                return 0
+            fid[0] += 1
+            return fid[0]
+        els = []
+        for sp in labels:
+            dfs = [dict(to=t, fid=nf()) for t in labels]
+            if fs and rng.random() < 0.3:
+                rng.shuffle(dfs)
+            if which == "tabeam_fs" and rng.random() < 0.1 and dfs:
+                dfs.pop(rng.randrange(len(dfs)))          # a missing dictionary entry: the real writer raises KeyError
+            if fs and rng.random() < 0.2:
+                dfs.append(dict(to="Qq", fid=nf()))         # an entry for a species that is not tabulated
+            els.append(dict(sp=sp, z=rng.randint(1, 90), mass=common.fq(Fr(rng.randint(2, 400), 2)), a0=common.fq(Fr(rng.randint(2, 20), 4)), lat=rng.choice(["fcc", "bcc"]),
+                            embed=nf(), dens=nf(), densFS=dfs))
+        pots = []
+        for _k in range(rng.randint(0, 4)):
+            a, b = rng.choice(labels), rng.choice(labels + ["Other"])
+            pots.append(dict(a=a, b=b, fid=nf(zero_ok=False)))
+        k = rng.randint(1, 4)
+        nrho, nr = rng.randint(1, 11), rng.randint(1, 11)
+        drho, dr = Fr(rng.randint(1, 9), 2 ** k), Fr(rng.randint(1, 9), 2 ** k)
+        title = rng.choice(["", "t", "a title", "x" * 120])
+        reqs.append(dict(op=which if which.startswith("tabeam") else "setfl", fs=fs, els=els, pots=pots, nrho=nrho, drho=common.fq(drho), nr=nr, dr=common.fq(dr), title=title))
+        cases.append((els, pots, nrho, drho, nr, dr, title))
+    answers = query_gen(reqs)
+    bad = 0
+    for (els, pots, nrho, drho, nr, dr, title), a in zip(cases, answers):
+        tracers = {0: _Zero()}
+        for e in els:
+            for f in [e["embed"], e["dens"]] + [d["fid"] for d in e["densFS"]]:
+                tracers.setdefault(f, Tracer(f))
+        for p in pots:
+            tracers.setdefault(p["fid"], Tracer(p["fid"]))
+        eobjs = [EAMPotential(e["sp"], e["z"], float(Fr(e["mass"])), tracers[e["embed"]],
+                              dict((d["to"], tracers[d["fid"]]) for d in e["densFS"]) if fs else tracers[e["dens"]], float(Fr(e["a0"])), e["lat"]) for e in els]
+        pobjs = [Potential(p["a"], p["b"], tracers[p["fid"]]) for p in pots]
+        buf = io.StringIO()
+        try:
+            if which == "tabeam":
+                from atsim.potentials import _dlpoly_writeTABEAM as m
+                m.writeTABEAM(nrho, float(drho), nr, float(dr), eobjs, pobjs, buf, title)
+            elif which == "tabeam_fs":
+                from atsim.potentials import _dlpoly_writeTABEAM as m
+                m.writeTABEAMFinnisSinclair(nrho, float(drho), nr, float(dr), eobjs, pobjs, buf, title)
+            else:
+                from atsim.potentials import _lammpsWriteEAM as m
+                m._writeSetFL(nrho, float(drho), nr, float(dr), 1.0, eobjs, pobjs, [], buf, m._writeSetFLDensityFunctionFinnisSinclair if fs else m._writeSetFLDensityFunction)
+            real = buf.getvalue()
+            if which.startswith("setfl"):
+                real = "".join(real.splitlines(True)[5:])
+        except KeyError:
+            real = "raised"
+        gen = a if a == "raised" else render(a, tracers)
+        run.traces += 1
+        run.dist["translator-validation/%s-writer" % which] += 1
+        if real != gen:
+            bad += 1
+            if bad <= 2:
+                run.tie_broken("translator", "generated %s writer vs the real one" % which,
+                               "elements %s pair potentials %s grids %s: %s" % ([(e["sp"], e["embed"], e["dens"], [(d["to"], d["fid"]) for d in e["densFS"]]) for e in els], pots, (nrho, str(drho), nr, str(dr)),
+                                                                              "real %r generated %r" % (real[:80], str(gen)[:80]) if "raised" in (real, gen) else _first_diff(real, gen)))
+    return len(cases)
+
+
+class _FakeCfg(object):
+    """what the duplicate checks read of a parsed configuration: section names in order, the keys of a section in order"""
+
+    def __init__(self, sections):
+        self._s = sections
+
+    def has_section(self, name):
+        return any(n == name for n, _ in self._s)
+
+    def sections(self):
+        return [n for n, _ in self._s]
+
+    def __getitem__(self, name):
+        return next(list(k) for n, k in self._s if n == name)
+
+
+def validate_cfg_logic(run, which, n=200):
+    """pair_species | dup_pairs | dup_table_forms: the regenerated definitions against ConfigParser._pair_species_func / _check_for_duplicate_pairs /
+    _TableFormSection.check_for_duplicate_table_forms on random keys and section lists"""
+    from atsim.potentials.config import _config_parser as cpm
+    from atsim.potentials.config._common import ConfigParserException, ConfigParserDuplicateEntryException
+    ok, log = build_gen()
+    if not ok:
+        run.tie_broken("translator", "Gen/Logic.lean (%s)" % which, "the regenerated definitions (or their driver) do not build: " + log[-600:])
+        return 0
+    rng = run.rng
+    labels = ["A", "B", "Cc", "D"]
+
+    def key():
+        r = rng.random()
+        a, b = rng.choice(labels), rng.choice(labels)
+        pad = lambda x: rng.choice(["", " ", "  ", "\t"]) + x + rng.choice(["", " ", "\t "])
+        if r < 0.7:
+            return pad(a) + "-" + pad(b)
+        return rng.choice([a, a + "-", "-" + b, a + "-" + b + "-" + a, " - ", "", a + " - ", "--", a + "--" + b])
+    inst = object.__new__(cpm.ConfigParser)
+
+    def real_pair(k):
+        try:
+            p = cpm.ConfigParser._pair_species_func(inst, k)
+            return [p[0], p[1]]
+        except ConfigParserException as e:
+            return "blankSpecies" if "label is missing" in str(e) else "notTwoParts"
+    cases, reqs = [], []
+    if which == "pair_species":
+        for _ in range(n):
+            k = key()
+            reqs.append(dict(op="pair_species", k=k))
+            cases.append(k)
+        real = [real_pair(k) for k in cases]
+    elif which == "dup_pairs":
+        for _ in range(n):
+            secs = []
+            for name in rng.sample(["Pair", "EAM-ADP-Dipole", "EAM-ADP-Quadrupole", "EAM-Embed", "Tabulation"], rng.randint(0, 4)):
+                keys = []
+                for _k in range(rng.randint(0, 4)):
+                    k = key() if (name != "Tabulation" and rng.random() < 0.08) else "%s-%s" % (rng.choice(labels), rng.choice(labels))
+                    if k not in keys:
+                        keys.append(k)          # (a section never holds the same key text twice: the INI reader refuses that before)
+                secs.append((name, keys))
+            reqs.append(dict(op="dup_pairs", sections=[dict(name=a, keys=b) for a, b in secs]))
+            cases.append(secs)
+        real = []
+        for secs in cases:
+            inst._config_parser = _FakeCfg(secs)
+            try:
+                cpm.ConfigParser._check_for_duplicate_pairs(inst)
+                real.append("ok")
+            except ConfigParserDuplicateEntryException:
+                real.append("duplicatePair")
+            except ConfigParserException as e:
+                real.append("blankSpecies" if "label is missing" in str(e) else "notTwoParts")
+    elif which == "dup_table_forms":
+        T = cpm._TableFormSection
+        for _ in range(n):
+            names = []
+            for _k in range(rng.randint(0, 5)):
+                r = rng.random()
+                lab = rng.choice(["t1", "t2", "T1", "x y"])
+                nm = rng.choice(["Table-Form:%s", "Table-Form : %s", " Table-Form:%s ", "Table-Form:  %s", "Table-Form:%s\t"]) % lab if r < 0.8 else rng.choice(["Pair", "Table-Form", "Table-Forms:t1", "Potential-Form"])
+                if nm not in names:
+                    names.append(nm)
+            tbl = [dict(name=nm, relevant=bool(T.is_relevant_section(nm)), label=T._parse_name(nm) if T.is_relevant_section(nm) else "") for nm in names]
+            reqs.append(dict(op="dup_table_forms", names=tbl))
+            cases.append(names)
+        real = []
+        for names in cases:
+            try:
+                T.check_for_duplicate_table_forms(_FakeCfg([(nm, []) for nm in names]))
+                real.append("ok")
+            except ConfigParserDuplicateEntryException:
+                real.append("duplicateTableForm")
+    else:
+        raise InfraError("unknown configuration-logic validation %s" % which)
+    bad = 0
+    for c, r, a in zip(cases, real, query_gen(reqs)):
+        run.traces += 1
+        run.dist["translator-validation/%s" % which] += 1
+        if r != a:
+            bad += 1
+            if bad <= 2:
+                run.tie_broken("translator", "generated %s vs the real one" % which, "input %r: real %r generated %r" % (c, r, a))
+    return len(cases)
